@@ -242,9 +242,41 @@ def run(ctx):
         cf = ctx.facts("core.cpp", cfg)
         for crec in cf.cls_all("quill::detail::BoundedSPSCQueueImpl", cfg):
             c09.check_drain_publish(Renamed(ctx, "C09.R1", "C11.R6"), cf, cfg, crec)
+    # ... and every read pass that consumed bytes commits them before it leaves (= C09.R3): a pass that returns early with bytes consumed
+    # but not committed leaves the producer computing its free space from a stale position — it allocates a new node although the queue
+    # is almost empty
+    c09.check_commit_after_pass(Renamed(ctx, "C09.R3", "C11.R7"), ctx.facts("core.cpp", "A"), "A")
+    r8_refusal_path_builds_nothing(ctx, ctx.facts("core.cpp", "A"))
     if ctx.tier == "thorough":
         macro_tier(ctx)
         matrix_tier(ctx)
+
+
+def r8_refusal_path_builds_nothing(ctx, facts):
+    """R8: _handle_full_queue is a cold edge of the effect analysis as a whole (growing the queue allocates, excluded by the property). One
+    of its exits is not growth: 'the maximum is reached, return nullptr' — the caller drops the statement or polls again, thousands of times
+    while the backend is behind. On the paths to that exit nothing is constructed or formatted: no std::string / QuillError / to_string /
+    operator+ / new. (The throw exit — a single statement larger than the maximum — and the growth exit may.)"""
+    from qlib import is_null, is_call, isnode
+    fs = facts.need("quill::detail::UnboundedSPSCQueue::_handle_full_queue", "A")
+    f = fs[0]
+    g = f.g
+    nulls = g.return_nodes(lambda r: is_null(r.get("val")))
+    if not nulls:
+        raise AnalysisBroken("_handle_full_queue: no 'return nullptr' exit (the refusal at the maximum capacity)")
+    heavy = [n for n in f.walk() if n["k"] == "CXXNewExpr" or
+             (is_call(n) and re.search(r"basic_string|QuillError|to_string|^std::operator\+|operator new|vformat|fmtquill::", n.get("callee") or "")) or
+             (n["k"] in ("CXXConstructExpr", "CXXTemporaryObjectExpr") and re.search(r"basic_string|QuillError", n.get("callee") or n.get("ty") or ""))]
+    on_path = []
+    for n in heavy:
+        ps = g.positions(n)
+        if ps and g.exists_path([g.entry_node], ps) and g.exists_path(ps, nulls):
+            on_path.append("%s at %s" % ((n.get("callee") or n["k"])[:60], n.get("loc")))
+    ctx.floor("C11.R8", "constructing / formatting sites in _handle_full_queue (the error text of the throw exit, the new node)", len(heavy), 2)
+    ctx.ob("C11.R8", "UnboundedSPSCQueue::_handle_full_queue:refusal-builds-nothing", not on_path,
+           "no path to the 'maximum reached: return nullptr' exit — taken by every log call and every blocking retry while the queue is full "
+           "at its maximum — constructs a string, an exception object or a node (%d such site(s) in the function, on a refusing path: %s)"
+           % (len(heavy), "; ".join(sorted(set(on_path))[:4]) or "none"), fn=f)
 
 
 def macro_tier(ctx):
